@@ -81,35 +81,56 @@ wasmMemoryGrow(
 """
 
 
-def size_module(max_pages=1000):
-    """(module (memory 1 <max> shared) (func (result i32) memory.size) (func (param i32) (result i32) local.get 0 memory.grow))"""
+def size_module(max_pages=1000, shared=True, imported=False):
+    """(module (memory 1 <max> [shared]) | (import "env" "memory" (memory 1 <max> [shared]))
+               (func (result i32) memory.size) (func (param i32) (result i32) local.get 0 memory.grow))"""
     import sys
     sys.path.insert(0, os.path.dirname(HERE))
     from wasmgen import wasm_ast as A, encode
     m = A.Module()
     m.types = [A.FuncType([], [A.I32]), A.FuncType([A.I32], [A.I32])]
-    m.mems = [A.Limits(1, max_pages, True)]
+    lim = A.Limits(1, max_pages, shared)
+    if imported:
+        m.imports = [A.Import(b"env", b"memory", "memory", lim)]
+    else:
+        m.mems = [lim]
     m.funcs = [A.Function(0, [], [A.Instr("memory.size")]),
                A.Function(1, [], [A.Instr("local.get", 0), A.Instr("memory.grow")])]
     return encode(m)
 
 
-# driver for the code w2c2 GENERATES from size_module(): f0 = memory.size, f1 = memory.grow; free-running threads (TSan)
+MEMORY_KINDS = [("defined-shared", True, False), ("imported-shared", True, True),
+                ("defined-nonshared", False, False), ("imported-nonshared", False, True)]
+
+# driver for the code w2c2 GENERATES from size_module(): f0 = memory.size, f1 = memory.grow; free-running threads (TSan).
+# -DIMPORTED: the memory is provided by the embedder through the import resolver; -DSHARED selects its kind.
 GEN_MAIN = r"""
 #include <stdio.h>
 #include <stdlib.h>
+#include <string.h>
 #include <pthread.h>
 #include "w2c2_base.h"
 #include "m.h"
 U32 f0(mInstance*); U32 f1(mInstance*, U32);
 void trap(Trap t) { fprintf(stderr, "trap %d\n", (int)t); abort(); }
 static mInstance inst; static int iters;
+static wasmMemory* envMemory;
+static void* resolve(const char* module, const char* name) {
+    if (!strcmp(module, "env") && !strcmp(name, "memory")) return envMemory;
+    return NULL;
+}
 static void* grower(void* a) { int i; U32 acc = 0; for (i = 0; i < iters; i++) acc += f1(&inst, i % 4 == 0); *(U32*)a = acc; return NULL; }
 static void* reader(void* a) { int i; U32 acc = 0; for (i = 0; i < iters; i++) acc += f0(&inst); *(U32*)a = acc; return NULL; }
 int main(int argc, char** argv) {
     pthread_t th[16]; U32 sink[16]; int g = atoi(argv[1]), r = atoi(argv[3]), i; iters = atoi(argv[2]);
     (void)argc;
+#if IMPORTED
+    envMemory = wasmMemoryAllocate(1, 1000, SHARED);
+    mInstantiate(&inst, resolve);
+#else
+    (void)resolve;
     mInstantiate(&inst, NULL);
+#endif
     for (i = 0; i < g; i++) pthread_create(&th[i], NULL, grower, &sink[i]);
     for (i = 0; i < r; i++) pthread_create(&th[g + i], NULL, reader, &sink[g + i]);
     for (i = 0; i < g + r; i++) pthread_join(th[i], NULL);
@@ -119,18 +140,19 @@ int main(int argc, char** argv) {
 """
 
 
-def build_generated(w2c2, incdir, workdir, extra=("-fsanitize=thread",)):
-    """Translate size_module() with the real w2c2 and build it with GEN_MAIN.  Returns (exe, generated C text)."""
+def build_generated(w2c2, incdir, workdir, extra=("-fsanitize=thread",), shared=True, imported=False):
+    """Translate size_module(kind) with the real w2c2 and build it with GEN_MAIN.  Returns (exe, generated C text)."""
     os.makedirs(workdir, exist_ok=True)
     with open(os.path.join(workdir, "m.wasm"), "wb") as f:
-        f.write(size_module())
+        f.write(size_module(1000, shared, imported))
     p = subprocess.run([w2c2, "m.wasm", "m.c"], cwd=workdir, stdout=subprocess.PIPE, stderr=subprocess.STDOUT, text=True)
     if p.returncode != 0 or not os.path.exists(os.path.join(workdir, "m.c")):
         raise RuntimeError("w2c2 failed on the size module: " + p.stdout[-500:])
     with open(os.path.join(workdir, "gen_main.c"), "w") as f:
         f.write(GEN_MAIN)
     exe = os.path.join(workdir, "gen_tsan")
-    cmd = ["gcc", "-O1", "-g", "-DWASM_THREADS_PTHREADS", "-I", incdir, *extra, "gen_main.c", "m.c", "-o", exe, "-lpthread", "-lm"]
+    cmd = ["gcc", "-O1", "-g", "-DWASM_THREADS_PTHREADS", f"-DIMPORTED={int(imported)}", f"-DSHARED={int(shared)}",
+           "-I", incdir, *extra, "gen_main.c", "m.c", "-o", exe, "-lpthread", "-lm"]
     p = subprocess.run(cmd, cwd=workdir, stdout=subprocess.PIPE, stderr=subprocess.STDOUT, text=True)
     if p.returncode != 0:
         raise RuntimeError("build of the generated module failed: " + p.stdout[-1500:])
@@ -209,10 +231,12 @@ def parse_result(line):
     w = line.split()
     i = w.index("pages")
     rets = [None if x == "-" else int(x) for x in w[1:i]]
-    d = {"rets": rets, "pages": int(w[i + 1]), "size": int(w[i + 3]), "blocked": []}
+    d = {"rets": rets, "pages": int(w[i + 1]), "size": int(w[i + 3]), "blocked": [], "held": None}
     j = i + 4
     while j < len(w):
         if w[j] == "blocked":
             d["blocked"].append(int(w[j + 1]))
+        elif w[j] == "held":
+            d["held"] = int(w[j + 1])
         j += 2
     return d
